@@ -1,14 +1,10 @@
 #!/bin/bash
-# Build the framework offline from files on disk: Gen/ from /repo, full .vo build, extracted driver.
+# Build the framework offline from files on disk: Gen/ tables from /repo, full .vo build, extracted drivers.
 set -e
 HERE="$(cd "$(dirname "$0")" && pwd)"
 cd "$HERE"
-mkdir -p .cache evidence replays coq/Gen
-export PYTHONPATH=/repo PYTHONHASHSEED=0 PYTHONDONTWRITEBYTECODE=1
-if [ -f tools/gen.py ] && [ -f tools/GEN_ENABLED ]; then /venv/bin/python tools/gen.py; fi
-cd coq
-coq_makefile -f _CoqProject -o Makefile
-timeout 3000 make -j"$(nproc)"
-cd ..
-/venv/bin/python -c "import sys; sys.path.insert(0,'harness'); import common as C; i=C.build(); print(i); sys.exit(0 if i['make_ok'] and i['ocaml_ok'] else 1)"
+mkdir -p .cache evidence replays coq/Gen coq/Cases
+export PYTHONPATH=/repo PYTHONHASHSEED=0 PYTHONDONTWRITEBYTECODE=1 VERIF_HOME="$HERE"
+(cd coq && coq_makefile -f _CoqProject -o Makefile)
+/venv/bin/python -c "import sys; sys.path.insert(0,'harness'); import common as C; i=C.build(); print({k:v for k,v in i.items() if k!='log'}); print(i['log'][-3000:]); sys.exit(0 if i['gen_ok'] and i['make_ok'] and i['ocaml_ok'] else 1)"
 echo "setup ok"
